@@ -273,12 +273,29 @@ def slice_text(text, start, end):
     return "\n".join([lines[sl - 1][sc - 1:]] + lines[sl:el - 1] + [lines[el - 1][:ec - 1]])
 
 
+_LINES = []
+
+
+def all_nodes(node, out):
+    out.append(node)
+    if isinstance(node.value, list):
+        for c in node.value:
+            if hasattr(c, 'span'):
+                all_nodes(c, out)
+    return out
+
+
 # ---------------------------------------------------------------- judging
 def judge(ctx, cfg_id, pieces, form, case):
     cfg = CONFIGS[cfg_id]
     parser = get_parser(cfg_id, case.get("smart", True))
     text, stream = layout(pieces, "lines" if form == "lazy" else form)
-    src = text if form == "str" else text.split("\n")
+    if form == "str":
+        src = text
+    else:
+        # (the caller keeps ONE list object for its lines and refills it for every text)
+        _LINES[:] = text.split("\n")
+        src = _LINES
     if form == "lazy":
         # the text is a lazy iterable of lines; while it is being consumed the same parser is used
         # for another text (re-entrant use of one long-lived parser)
@@ -421,6 +438,22 @@ def judge(ctx, cfg_id, pieces, form, case):
             ctx.violation("empty-node-before-previous-token", {"node": node.name, "at": got}, case)
         if prev_leaf is not None and follower is not None and follower.start_pos.line > prev_leaf.end_pos.line:
             nontrivial = True
+    # a copy of the tree carries the same spans (the original was judged above)
+    if len(text) % 4 == 0:
+        try:
+            orig_nodes = all_nodes(tree, [])
+            copy_nodes = all_nodes(tree.clone(), [])
+        except Exception as err:
+            ctx.violation("cloning-the-tree-raises", {"type": type(err).__name__, "msg": str(err)[:100]}, case)
+            return
+        ctx.count("cloned_trees_compared")
+        a = [(n.name, n.span) for n in orig_nodes]
+        b = [(n.name, n.span) for n in copy_nodes]
+        if a != b:
+            k = next((i for i, (x, y) in enumerate(zip(a, b)) if x != y), min(len(a), len(b)))
+            ctx.violation("copy-of-the-tree-has-other-spans", {"node": a[k][0] if k < len(a) else None,
+                                                                "original": a[k][1] if k < len(a) else None,
+                                                                "copy": b[k][1] if k < len(b) else None}, case)
     if nontrivial and n_lines >= 2:
         ctx.nontrivial(sig_of([cfg_id, text, form]))
 
@@ -496,6 +529,37 @@ def gen_context_lines(rng):
 
 def run_case(ctx, cfg_id, pieces, smart=True):
     for form in ("str", "lines", "lazy"):
+        if form == "lines" and len(pieces) >= 4 and not any(p[0] == "bad" for p in pieces):
+            # the same parser has just parsed the caller's list of lines when it held another text (the first
+            # half of this one)
+            cut = len(pieces) // 2
+            if CONFIGS[cfg_id]["stmt"]:
+                # (a prefix that ends where a top-level statement ends)
+                depth, ends, at_start, block = 0, [0], True, False
+                for k, p in enumerate(pieces):
+                    if p[0] != "tok" or p[1] == "COMMENT":
+                        continue
+                    if p[1] == "(":
+                        if depth == 0 and at_start:
+                            block = True       # a '( ... )' statement (not the brackets of a declaration)
+                        depth += 1
+                    elif p[1] == ")":
+                        depth -= 1
+                        if depth == 0 and block:
+                            ends.append(k + 1)
+                            block, at_start = False, True
+                            continue
+                    elif p[1] == ";" and depth == 0:
+                        ends.append(k + 1)
+                        at_start = True
+                        continue
+                    at_start = False
+                cut = max(e for e in ends if e <= max(cut, 1)) if any(e <= max(cut, 1) for e in ends) else 0
+            half = pieces[:cut]
+            if half and half[-1][2].startswith("//"):
+                half = half + [("nl", None, "\n")]
+            judge(ctx, cfg_id, half, form, {"cfg": cfg_id, "pieces": [list(p) for p in half], "form": form,
+                                            "smart": smart})
         case = {"cfg": cfg_id, "pieces": [list(p) for p in pieces], "form": form, "smart": smart}
         judge(ctx, cfg_id, pieces, form, case)
 
